@@ -680,6 +680,9 @@ func runI(t *testing.T, ch *vs.Choices, prop, tier string, render bool) *vs.RunO
 						if m.table[name].Task.Watch {
 							continue // calling it would start watch mode
 						}
+						if tk, ok := lr.attrs[name]; !ok || tk.Watch {
+							continue // not there, or (wrongly) a watch task: reported by the table / attribute checks
+						}
 						before := len(sim.Events)
 						err := e.Run(context.Background(), &task.Call{Task: name})
 						lr.runErr[name] = err
